@@ -190,8 +190,13 @@ def same_value(H, name, got, want):
         return H.prove_eq(name, got, want)
     g, w = complex(got), complex(want)
     bad = lambda v: (v != v) or abs(v.imag) > 1e-12 or abs(v) == float("inf")
-    if bad(g) or bad(w):
-        return H.prove(name, bad(g) and bad(w))
+    if bad(w):
+        # some sub-expression left the real domain of ** (negative base, fractional exponent) or overflowed:
+        # numpy arrays give NaN / inf there, Python scalars complex numbers (which a later even power can
+        # turn back into an almost-real number): no claim outside the real domain
+        return H.prove(name, True)
+    if bad(g):
+        return H.prove(name, False)
     return H.prove(name, abs(g - w) <= 1e-9 * max(1.0, abs(g), abs(w)))
 
 
@@ -303,11 +308,16 @@ def body(H, case):
             for label, (X, Y, T) in (("same x, other y", (x, y2, t)), ("other x, same y", (x2, y2, t)), ("same point, other time", (x2, y2, t2)), ("the first point again", (x, y, t))):
                 kw2 = dict(t=T) if timedep(spec) else {}
                 try:
+                    want = oracle(spec, one(X), one(Y), one(Z0), T)
+                except (OverflowError, ZeroDivisionError):
+                    want = float("nan")
+                try:
                     got = P(X, Y, Z0, **kw2)
+                except (OverflowError, ZeroDivisionError):
+                    got = float("nan")
                 except Exception as e:
                     H.prove(f"{name}: evaluates again at {label} ({type(e).__name__}: {e})", False)
                     continue
-                want = oracle(spec, one(X), one(Y), one(Z0), T)
                 same_value(H, f"{name}: re-evaluated at {label} = op(values of the operands there)", got if np.ndim(K.elems(got) if hasattr(got, "data") else got) == 0 else K.at(got, 0), K.at(want, 0) if hasattr(want, "__len__") else want)
         # structural equality
         H.prove(f"{name}: equals an identically built expression", build(spec) == P)
